@@ -28,3 +28,26 @@ def extOf6 (o : Meta.Oracle) : PyRt.Oracle := fun name args =>
   else PyMeta.extOf o name args
 
 end PyMd
+
+namespace PyMd
+open Py PyRt
+
+/-! ## x6: the instance `__dict__` of a `Metadata` object is the field list of the record -/
+
+/-- `instance.__dict__[name] = v` -/
+def setattr_dyn (o name v : PyVal) : M PyVal :=
+  match name with
+  | .str s => setattr o (toStringLossy s) v
+  | _ => throw typeError
+
+/-- `del o.<field>[key]` for a dict held in an instance field (`KeyError` when the key is missing) -/
+def del_field_item (o : PyVal) (field : String) (key : PyVal) : M PyVal := do
+  match (← getattr o field) with
+  | .dict kvs =>
+    if !hashable key then throw typeError else
+    (match dictLookup kvs key with
+     | some _ => setattr o field (.dict (dictErase kvs key))
+     | Option.none => throw "KeyError")
+  | _ => throw typeError
+
+end PyMd
